@@ -386,3 +386,60 @@ def _two_mirror(ct, tier, seed):
 
 contract('C06.runtime.two_mirror', ['optiland/optic.py:Optic.trace', 'optiland/rays/ray_generator.py:RayGenerator._get_starting_z_offset',
                                     'optiland/surfaces/surface_group.py:SurfaceGroup.trace'], ['C06'], custom=_two_mirror)(lambda c: None)
+
+
+def _retuned(ct, tier, seed):
+    """bounded, edit-then-ask: a plano-hyperbolic singlet (k = -n^2, R = -(n - 1) f) is traced, then retuned *in place* to another
+    glass (set_index, set_conic, set_radius) and traced again at the same wavelength: it must be as stigmatic as a lens built
+    directly for the new glass"""
+    import random
+    import time
+    import warnings
+    import numpy as np
+    from optiland.optic import Optic
+    from optiland.materials import IdealMaterial
+    warnings.simplefilter('ignore')
+    np.seterr(all='ignore')
+    t0 = time.time()
+    rng = random.Random(seed * 67 + 16)
+    clauses, fails, cases = {}, [], 0
+    cid = 'C06.runtime.singlet_retuned_in_place_is_stigmatic_for_its_current_glass'
+    c_ = clauses.setdefault(cid, {'paths': 0, 'proved': 0, 'backends': {}, 'failed': [], 'seconds': 0.0, 'bounded': True})
+    for i in range(2 if tier == 'quick' else 8):
+        f = rng.uniform(60, 150)
+        n_seq = [rng.uniform(1.4, 1.9) for _ in range(3)]
+        L = Optic()
+        L.add_surface(index=0, thickness=np.inf)
+        L.add_surface(index=1, radius=np.inf, thickness=5.0, material=IdealMaterial(n_seq[0]), is_stop=True)
+        L.add_surface(index=2, radius=-(n_seq[0] - 1) * f, conic=-n_seq[0] ** 2, thickness=f)
+        L.add_surface(index=3)
+        L.set_aperture('EPD', f / 5.0)
+        L.set_field_type('angle')
+        L.add_field(y=0)
+        L.add_wavelength(0.55, is_primary=True)
+        for step, n_ in enumerate(n_seq):
+            if step:
+                L.set_index(n_, 1)
+                L.set_conic(-n_ ** 2, 2)
+                L.set_radius(-(n_ - 1) * f, 2)
+            L.trace(0, 0, 0.55, num_rays=3, distribution='hexapolar')
+            sg = L.surface_group
+            x, y, opl = sg.x[-1], sg.y[-1], sg.opd[-1]
+            cases += 1
+            c_['paths'] += 1
+            ok = bool(np.all(np.isfinite(x))) and float(np.max(np.hypot(x, y))) <= 1e-9 * f and float(np.ptp(opl)) <= 1e-9 * f
+            if ok:
+                c_['proved'] += 1
+                c_['backends']['runtime'] = c_['backends'].get('runtime', 0) + 1
+            else:
+                fails.append({'clause': cid, 'draws': {'f': f, 'indices': n_seq, 'step': step},
+                              'note': 'after %d in-place glass changes: spot radius %.3e, path spread %.3e' % (step, float(np.nanmax(np.hypot(x, y))), float(np.ptp(opl)))})
+    return {'contract': ct.name, 'functions': ct.functions, 'props': ct.props,
+            'symbolic': {'clauses': clauses, 'paths': 0, 'errors': [], 'solver_s': 0.0, 'samples': [], 'wd_assumed': [], 'assumed': []},
+            'numeric': {'accepted': cases, 'rejected': 0, 'failures': fails[:10], 'concolic_agree': 0, 'encoder_mismatches': [],
+                        'samples': [{'lens': 'plano-hyperbolic singlet retuned twice'}]}, 'wall_s': time.time() - t0}
+
+
+contract('C06.runtime.retuned', ['optiland/optic.py:Optic.set_index', 'optiland/optic.py:Optic.set_conic', 'optiland/optic.py:Optic.set_radius',
+                                 SS_ + ':Surface._trace_real' if 'SS_' in globals() else 'optiland/surfaces/standard_surface.py:Surface._trace_real'],
+         ['C06'], custom=_retuned)(lambda c: None)
